@@ -19,7 +19,7 @@ impl Tok for char {
     }
 }
 /// model tokens that stand for multi-code-point grapheme clusters (kind "graph"): a private-use character each
-pub const CLUSTERS: &[(char, &str)] = &[('\u{E000}', "e\u{301}"), ('\u{E001}', "\u{1F1FA}\u{1F1F8}")];
+pub const CLUSTERS: &[(char, &str)] = &[('\u{E000}', "e\u{301}"), ('\u{E001}', "\u{1F1FA}\u{1F1F8}"), ('\u{E002}', "\r\n")];
 pub fn expand_clusters(toks: &[char]) -> String {
     let mut s = String::new();
     for c in toks {
